@@ -531,12 +531,17 @@ fn big(a: &Args) {
                 let mut a2 = make(alg, ft, m);
                 a2.slice(&items);
                 let post2 = a2.raw();
-                (pre, post, post2, views)
+                // a third sketcher sees only the first half of the stream: its u32 view must map every hash it shares
+                // with the full sketch to the same image (the u32 view is a fixed function of the u64 view)
+                let mut a3 = make(alg, ft, m);
+                a3.slice(&items[..(items.len() + 1) / 2]);
+                let half = a3.views();
+                (pre, post, post2, views, half)
             });
             watch_end();
             let mut bad: Vec<String> = Vec::new();
             match r {
-                Ok((pre, post, post2, views)) => {
+                Ok((pre, post, post2, views, half)) => {
                     // the three public views: m entries each; float and u64 views are the finished bins; the u32 view is a
                     // function of the u64 view (equal hashes have equal images, everywhere in the sketch)
                     let (vf, v64, v32) = views;
@@ -552,6 +557,15 @@ fn big(a: &Args) {
                             if *e != v32[k] {
                                 bad.push(format!("u32 view: the hash at position {} has the image {} here and {} elsewhere", k, v32[k], *e));
                                 break;
+                            }
+                        }
+                        let (_, h64, h32) = half;
+                        for k in 0..h64.len().min(h32.len()) {
+                            if let Some(e) = img.get(&h64[k]) {
+                                if *e != h32[k] {
+                                    bad.push(format!("u32 view: the hash at position {} of the sketch of the first half of the stream has the image {} there and {} in the sketch of the whole stream", k, h32[k], *e));
+                                    break;
+                                }
                             }
                         }
                     }
